@@ -176,11 +176,11 @@ def compare(case, obs, replies):
             if not U.close(want, mpmath.mpf(o[1])):
                 return '%s: model magnitude %s, implementation %s' % (where, want, o[1])
             f, d = U.parse_base_format(o[2])
-            if not U.close(U.scale_value(m[2]), f) or root_dict(m[3]) != d:
+            if not U.close(U.scale_value(m[2]), f) or not U.dims_close(root_dict(m[3]), d):
                 return '%s: model result unit %s %s, implementation %s' % (where, m[2], m[3], o[2])
         elif q[0] == 'root':
             f, d = U.parse_base_format(o[1])
-            if not U.close(U.scale_value(m[1]), f) or root_dict(m[2]) != d:
+            if not U.close(U.scale_value(m[1]), f) or not U.dims_close(root_dict(m[2]), d):
                 return '%s: model %s %s, implementation %s' % (where, m[1], m[2], o[1])
     return None
 
@@ -219,7 +219,7 @@ def oracle(case, obs):
             want = {U.PINT_BASE.get(k, k): v for k, v in a.dims.items()}
             got = {re.sub(r'^\[\d+:(.*)\]$', r'\1', k): v for k, v in d.items()}
             want = {re.sub(r'^\[\d+:(.*)\]$', r'\1', k): v for k, v in want.items()}
-            if not U.close(f, a.scale) or got != want:
+            if not U.close(f, a.scale) or not U.dims_close(got, want):
                 fails.append({'key': 'si-meaning', 'detail': 'unit %s expands to %s, specification says %s %s'
                               % (ua, o[1], mpmath.nstr(a.scale, 15), want)})
             continue
